@@ -538,6 +538,7 @@ def leaf_dbg(kind, x, ty=None, tparams=()):
 
 def parse_answer(ans):
     ans = ans.split(' text=', 1)[0]
+    ans = re.sub(r' (ops=[01]{4}|ne=(true|false))$', '', ans)
     m = re.match(r'spec=(.*) eval=(.*)$', ans)
     return (m.group(1), m.group(2)) if m else (None, None)
 
@@ -573,10 +574,11 @@ def expected_observation(item, cfg, q, spec, all_answers):
     op, a, b = q
     kinds = kinds_of(item)
     if op == 'eq':
-        return [spec, 'false' if spec == 'true' else 'true']
+        # `!=`: core's provided `ne` over the derived `eq`, computed by the Lean specification (`neOf`)
+        return [spec, all_answers.get(('ne', enc(a), enc(b)))]
     if op == 'pcmp':
-        ops = {'None': '0000', 'Some(Less)': '1100', 'Some(Equal)': '0101', 'Some(Greater)': '0011'}[spec]
-        return [spec, ops]
+        # `<`, `<=`, `>`, `>=`: core's provided methods over the derived `partial_cmp` (`ltOf` .. `geOf` in DW/Spec.lean)
+        return [spec, all_answers.get(('ops', enc(a), enc(b)))]
     if op == 'cmp':
         return [spec]
     k, vals = a if a else (None, None)
@@ -715,6 +717,12 @@ def run_b_(cfg, named_items, hostile=False):
         for q, a in zip(qs, parts):
             s, e = parse_answer(a)
             specs[(q[0], enc(q[1]) if q[1] else None)] = s
+            if q[0] == 'eq':
+                m = re.search(r' ne=(true|false)$', a)
+                specs[('ne', enc(q[1]), enc(q[2]))] = m.group(1) if m else None
+            if q[0] == 'pcmp':
+                m = re.search(r' ops=([01]{4})$', a)
+                specs[('ops', enc(q[1]), enc(q[2]))] = m.group(1) if m else None
             if q[0] == 'debug':
                 st, et = parse_text(a)
                 specs[('debugtext', enc(q[1]))] = st
